@@ -12,7 +12,7 @@ class _StopShrink(BaseException):
     pass
 
 
-def explore(col, strategy, judge, max_examples, seed, shrink_budget_s=25, max_shrinks=1):
+def explore(col, strategy, judge, max_examples, seed, shrink_budget_s=25, max_shrinks=1, shrink_key=None):
     """Run `judge(case, col)` on `max_examples` draws of `strategy`.
 
     judge returns a list of failure records (possibly empty).  Failures covered by an open known finding are
@@ -20,6 +20,7 @@ def explore(col, strategy, judge, max_examples, seed, shrink_budget_s=25, max_sh
     at a time by re-running the same seeded test with only that signature failing.
     """
     found = {}
+    key = shrink_key or findings.sig   # what must stay the same while shrinking (default: the full signature)
 
     @hseed(seed)
     @settings(max_examples=max_examples, database=None, deadline=None, derandomize=False,
@@ -28,7 +29,7 @@ def explore(col, strategy, judge, max_examples, seed, shrink_budget_s=25, max_sh
     def run(case):
         for rec in judge(case, col) or ():
             if not col.fail(rec, case):
-                found.setdefault(findings.sig(rec), (rec, case))
+                found.setdefault(key(rec), (rec, case))
 
     run()
 
@@ -36,14 +37,14 @@ def explore(col, strategy, judge, max_examples, seed, shrink_budget_s=25, max_sh
     for k, (s, (rec, case)) in enumerate(list(found.items())):
         if k >= max_shrinks:
             break
-        best = _shrink(strategy, judge, s, seed, max_examples, shrink_budget_s, col.entries)
+        best = _shrink(strategy, judge, s, seed, max_examples, shrink_budget_s, col.entries, key)
         if best is not None:
-            u = col.unmatched.get(s)
+            u = col.unmatched.get(findings.sig(rec))
             if u is not None:
                 u['record'], u['case'], u['shrunk'] = best[0], best[1], True
 
 
-def _shrink(strategy, judge, target_sig, seed, max_examples, budget_s, entries):
+def _shrink(strategy, judge, target_sig, seed, max_examples, budget_s, entries, key=findings.sig):
     nc = NullCollector(entries)
     state = {'best': None, 't0': None}
 
@@ -54,7 +55,7 @@ def _shrink(strategy, judge, target_sig, seed, max_examples, budget_s, entries):
     @given(strategy)
     def run(case):
         for rec in judge(case, nc) or ():
-            if findings.sig(rec) == target_sig:
+            if key(rec) == target_sig and not findings.find(entries, rec, 'open'):
                 if state['t0'] is None:
                     state['t0'] = time.monotonic()
                 state['best'] = (rec, case)
